@@ -4,7 +4,7 @@
     EscapeTop.v (get_matches_with / do_parse / parse_top). *)
 From ClapModel Require Import Base.Bytes Base.Machine Base.Utf8 Lex.OsStrExtModel.
 From ClapModel Require Import Parse.Cmd Parse.Build Parse.Valid Parse.Matcher Parse.Errors Parse.Validator Parse.Parser.
-From ClapModel Require Import ParseProofs.Totality ParseProofs.Dispatch ParseProofs.Escape ParseProofs.EscapeWalk ParseProofs.EscapeStore ParseProofs.EscapeLevel ParseProofs.EscapeChain ParseProofs.EscapeDisplay ParseProofs.EscapeGlobals ParseProofs.EscapeTop.
+From ClapModel Require Import ParseProofs.Totality ParseProofs.Dispatch ParseProofs.Escape ParseProofs.EscapeWalk ParseProofs.EscapeStore ParseProofs.EscapeLevel ParseProofs.EscapeChain ParseProofs.EscapeDisplay ParseProofs.EscapeGlobals ParseProofs.EscapeTop ParseProofs.EscapeAny.
 From Coq Require Import ZArith.
 From RecordUpdate Require Import RecordSet.
 Import RecordSetNotations.
@@ -549,3 +549,154 @@ Theorem C05_parse_top_is_do_parse : forall c0 bin rest,
             end) rest.
 Proof. exact parse_top_is_do_parse. Qed.
 Print Assumptions C05_parse_top_is_do_parse.
+
+(** * Round 3 *)
+
+(** ** (1) levels WITH hyphen-accepting arguments
+
+    The loop before the escape without the hypothesis "no argument of the level accepts hyphen values": the
+    line [pre ++ -- :: t] behaves as in [C05_escape_line_sim] ([esim]), or -- the documented exception -- it
+    reaches the [--], in ONE state that does not depend on the tail, while an argument that accepts hyphen
+    values is still being collected; the [--] is then a value of that argument
+    ([C05_hyphen_opt_takes_dashdash]).  Hyphen-accepting arguments that are NOT being collected at the [--]
+    change nothing. *)
+Theorem C05_escape_line_sim_h : forall c,
+  (forall a, In a (c_args c) -> find_arg c (a_id a) = Some a) ->
+  (forall a, In a (c_args c) -> a_index a <> None -> a_takes_value a = true) ->
+  (forall vaf, possible_subcommand c dashdash vaf = None) ->
+  forall pre t1 t2 ls st, TV c st -> LTV c ls ->
+  esim c t1 t2 ls st (parse_loop c (pre ++ dashdash :: t1) ls st) (parse_loop c (pre ++ dashdash :: t2) ls st)
+  \/ hyphen_exception c t1 t2 ls st (parse_loop c (pre ++ dashdash :: t1) ls st) (parse_loop c (pre ++ dashdash :: t2) ls st).
+Proof. exact escape_line_sim_h. Qed.
+Print Assumptions C05_escape_line_sim_h.
+
+Theorem C05_hyphen_exception_def : forall c t1 t2 ls st R1 R2,
+  hyphen_exception c t1 t2 ls st R1 R2 <->
+  exists ls' st' a, TV c st' /\ LTV c ls' /\ mt_sub (mt st') = mt_sub (mt st) /\ l_trailing ls' = false /\
+    state_arg c (l_pst ls') = ROk (Some a) /\ a_hyphen a = true /\
+    R1 = parse_loop c (dashdash :: t1) ls' st' /\ R2 = parse_loop c (dashdash :: t2) ls' st'.
+Proof. exact (fun c t1 t2 ls st R1 R2 => conj (fun H => H) (fun H => H)). Qed.
+Print Assumptions C05_hyphen_exception_def.
+
+(** ** (1)/(2)/(4) no token of the tail reaches an argument that is not a positional -- for EVERY shape of
+    positionals ([Append] with [num_args(1)], terminators, low-index multiples, overflow into an external
+    subcommand).  The trailing-mode loop followed by [resolve_pending]: every entry that no positional can
+    touch ([pos_untouched]) is the entry of [tail_base st] -- the state the tail started from, with an open
+    occurrence of a NON-positional argument (an option still collecting values when the [--] arrived) closed
+    there, independently of the tail. *)
+Theorem C05_trailing_any_base : forall c, lvl c ->
+  forall l ls st lr r,
+  l_trailing ls = true -> parse_loop c l ls st = ROk lr -> resolve_pending c (lr_state lr) = ROk r ->
+  exists b, tail_base c st = ROk b /\ forall y, pos_untouched c y -> get_entry y r = get_entry y b.
+Proof. exact trailing_any_base. Qed.
+Print Assumptions C05_trailing_any_base.
+
+Theorem C05_tail_base_def : forall c st y,
+  tail_base c st = match mt_pending (mt st) with
+                   | Some p => if (match find_arg c (p_id p) with Some a => is_some (a_index a) | None => false end)
+                               then ROk st else resolve_pending c st
+                   | None => ROk st
+                   end
+  /\ (pos_untouched c y <-> forall a, In a (c_args c) -> a_index a <> None -> touched c a y = false).
+Proof. exact (fun c st y => conj eq_refl (conj (fun H => H) (fun H => H))). Qed.
+Print Assumptions C05_tail_base_def.
+
+(** ... and the trailing-mode loop never writes the recorded subcommand *)
+Theorem C05_trailing_any_sub : forall c l ls st lr,
+  l_trailing ls = true -> parse_loop c l ls st = ROk lr -> mt_sub (mt (lr_state lr)) = mt_sub (mt st).
+Proof. exact trailing_any_sub. Qed.
+Print Assumptions C05_trailing_any_sub.
+
+(** one level of [get_matches_with], every shape of positionals, hyphen-accepting arguments allowed: two
+    successful parses of the same prefix with tails [t1], [t2] (either may be empty) agree on every
+    command-line entry no positional can touch and (external subcommands off) recorded no subcommand
+    ([same_any]); or [pre] dispatched; or the exception of (1). *)
+Theorem C05_level_prefix_any : forall c, lvl c ->
+  (forall vaf, possible_subcommand c dashdash vaf = None) ->
+  forall f pre t1 t2 st0 s1 s2,
+  mt_pending (mt st0) = None ->
+  get_matches_with (S f) c (pre ++ dashdash :: t1) st0 = ROk s1 ->
+  get_matches_with (S f) c (pre ++ dashdash :: t2) st0 = ROk s2 ->
+  same_any c st0 s1 s2
+  \/ (exists n k v st1 r,
+        parse_loop c (pre ++ dashdash :: t1) ls0 st0 = ROk (LSub n k v st1 (r ++ dashdash :: t1)) /\
+        parse_loop c (pre ++ dashdash :: t2) ls0 st0 = ROk (LSub n k v st1 (r ++ dashdash :: t2)))
+  \/ (exists tk r st1,
+        parse_loop c (pre ++ dashdash :: t1) ls0 st0 = ROk (LExternal tk (r ++ dashdash :: t1) st1) /\
+        parse_loop c (pre ++ dashdash :: t2) ls0 st0 = ROk (LExternal tk (r ++ dashdash :: t2) st1))
+  \/ hyphen_exception c t1 t2 ls0 st0
+       (parse_loop c (pre ++ dashdash :: t1) ls0 st0) (parse_loop c (pre ++ dashdash :: t2) ls0 st0).
+Proof. exact level_prefix_any. Qed.
+Print Assumptions C05_level_prefix_any.
+
+Theorem C05_same_any_def : forall c st0 s1 s2,
+  same_any c st0 s1 s2 <->
+  ((forall y e, pos_untouched c y -> find_group c y = None ->
+                get_entry y s1 = Some e -> m_source e = Some SCmdLine -> get_entry y s2 = Some e)
+   /\ (is_set s_allow_external c = false -> mt_sub (mt s1) = mt_sub (mt st0) /\ mt_sub (mt s2) = mt_sub (mt st0))).
+Proof. exact (fun c st0 s1 s2 => conj (fun H => H) (fun H => H)). Qed.
+Print Assumptions C05_same_any_def.
+
+(** over the recursion into subcommands ([esc_okh]: as [esc_ok], but hyphen-accepting arguments and
+    Help/Version arguments with env/defaults are allowed) *)
+Theorem C05_gmw_prefix_any : forall fuel c pre t1 t2 st0 s1 s2,
+  esc_okh fuel c -> mt_pending (mt st0) = None -> mt_sub (mt st0) = None ->
+  get_matches_with fuel c (pre ++ dashdash :: t1) st0 = ROk s1 ->
+  get_matches_with fuel c (pre ++ dashdash :: t2) st0 = ROk s2 ->
+  prefix_any [] fuel c (into_inner (mt s1)) (into_inner (mt s2)).
+Proof. exact gmw_prefix_any. Qed.
+Print Assumptions C05_gmw_prefix_any.
+
+(** ** (5) ... and for the entry points, GLOBAL ARGUMENTS PRESENT: class [esc_class_h] = [plain], [valid], no
+    [ignore_errors], no subcommand named [--]; every shape of positionals, hyphen-accepting arguments and
+    global arguments allowed.  [fill_in_global_values] rewrites the entries of global arguments at every level
+    after the parse; every other entry is compared ([prefix_any] with [gl] = the global ids of the tree). *)
+Theorem C05_parse_top_prefix_any : forall c0 bin pre t1 t2 m1 m2,
+  esc_class_h c0 = true -> is_set s_no_binary_name c0 = false -> c_bin_name c0 <> None ->
+  parse_top c0 (bin :: pre ++ dashdash :: t1) = OOk m1 -> parse_top c0 (bin :: pre ++ dashdash :: t2) = OOk m2 ->
+  prefix_any (all_globals (build_recursive (top_fuel c0) c0)) (top_fuel c0) (build_self c0) m1 m2.
+Proof. exact parse_top_prefix_any. Qed.
+Print Assumptions C05_parse_top_prefix_any.
+
+Theorem C05_do_parse_prefix_any : forall c0 pre t1 t2 m1 m2,
+  esc_class_h c0 = true ->
+  do_parse c0 (pre ++ dashdash :: t1) = OOk m1 -> do_parse c0 (pre ++ dashdash :: t2) = OOk m2 ->
+  prefix_any (all_globals (build_recursive (top_fuel c0) c0)) (top_fuel c0) (build_self c0) m1 m2.
+Proof. exact do_parse_prefix_any. Qed.
+Print Assumptions C05_do_parse_prefix_any.
+
+Theorem C05_prefix_any_def : forall gl f c m1 m2,
+  prefix_any gl (S f) c m1 m2 <->
+  (((forall y e, mem_id y gl = false -> pos_untouched c y -> find_group c y = None ->
+                 fm_get y (ms_args m1) = Some e -> m_source e = Some SCmdLine -> fm_get y (ms_args m2) = Some e)
+    /\ (is_set s_allow_external c = false -> ms_sub m1 = None /\ ms_sub m2 = None))
+   \/ (exists name sc sm1 sm2, build_subcommand c name = Some sc /\ ms_sub m1 = Some (c_name sc, sm1)
+                               /\ ms_sub m2 = Some (c_name sc, sm2)
+                               /\ (forall y, mem_id y gl = false -> fm_get y (ms_args m1) = fm_get y (ms_args m2))
+                               /\ prefix_any gl f sc sm1 sm2)
+   \/ (exists name sm1 sm2,
+         ms_sub m1 = Some (name, sm1) /\ ms_sub m2 = Some (name, sm2) /\
+         (forall y, mem_id y gl = false -> fm_get y (ms_args m1) = fm_get y (ms_args m2)))
+   \/ (exists a, In a (c_args c) /\ a_hyphen a = true)).
+Proof. exact (fun gl f c m1 m2 => conj (fun H => H) (fun H => H)). Qed.
+Print Assumptions C05_prefix_any_def.
+
+Theorem C05_esc_class_h_def : forall c0 f c,
+  esc_class_h c0 = plain c0 && valid c0 && esc_okhb (top_fuel c0) (build_self c0) /\
+  esc_okhb (S f) c =
+    negb (is_set s_ignore_errors c)
+    && negb (is_some (possible_subcommand c dashdash false)) && negb (is_some (possible_subcommand c dashdash true))
+    && forallb (fun s => match build_subcommand c (c_name s) with Some sc => esc_okhb f sc | None => false end) (c_subs c).
+Proof. exact (fun c0 f c => conj eq_refl eq_refl). Qed.
+Print Assumptions C05_esc_class_h_def.
+
+(** the new class contains the class of the round-2 theorems; on a level without hyphen-accepting arguments
+    the fourth case of [prefix_any] / [C05_level_prefix_any] cannot occur *)
+Theorem C05_esc_class0_h : forall c0, esc_class0 c0 = true -> esc_class_h c0 = true.
+Proof. exact esc_class0_h. Qed.
+Print Assumptions C05_esc_class0_h.
+
+Theorem C05_no_hyphen_exception : forall c t1 t2 ls st R1 R2,
+  (forall a, In a (c_args c) -> a_hyphen a = false) -> hyphen_exception c t1 t2 ls st R1 R2 -> False.
+Proof. exact no_hyphen_exception. Qed.
+Print Assumptions C05_no_hyphen_exception.
